@@ -450,24 +450,20 @@ pub(crate) mod verif_local {
         NoIndent,
     }
 
-    /// One call of `format_missing(end)` / `format_missing_with_indent(end)` /
-    /// `format_missing_no_indent(end)` on a fresh visitor whose snippet provider holds `text`
-    /// exactly as given (`last_pos` and `end` are byte offsets into it), whose buffer holds
-    /// `buffer` and whose `block_indent` is as given. The source map holds a file of the same
-    /// byte length with the same line breaks (`text` itself when rustc's normalisation leaves
-    /// it alone), registered behind a file of `pad` bytes when `pad > 0`, so that the text
-    /// does not start at `BytePos(0)`. Returns the buffer, `line_number`, `last_pos` (offset
-    /// into `text`) afterwards, and the start position of the text in the source map.
-    pub(crate) fn format_missing_call(
+    /// Runs `f` on a fresh visitor whose snippet provider holds `text` exactly as given, whose
+    /// buffer holds `buffer` (put there with `push_str`) and whose `block_indent` is as given;
+    /// `f` also gets the start position of the text in the source map. The source map holds a
+    /// file of the same byte length with the same line breaks (`text` itself when rustc's
+    /// normalisation leaves it alone), registered behind a file of `pad` bytes when `pad > 0`,
+    /// so that the text does not start at `BytePos(0)`.
+    pub(crate) fn with_text_visitor<R>(
         text: &str,
         pad: usize,
         buffer: &str,
         block_indent: Indent,
-        last_pos: usize,
-        end: usize,
-        entry: MissedEntry,
         config: &Config,
-    ) -> (String, usize, usize, usize) {
+        f: impl FnOnce(&mut FmtVisitor<'_>, BytePos) -> R,
+    ) -> R {
         rustc_span::create_session_if_not_set_then(config.edition().into(), |_| {
             let psess = ParseSess::new(config).expect("parse session");
             let source_map = psess.inner().source_map();
@@ -492,6 +488,25 @@ pub(crate) mod verif_local {
                 FmtVisitor::from_psess(&psess, config, &provider, FormatReport::new());
             visitor.block_indent = block_indent;
             visitor.push_str(buffer);
+            f(&mut visitor, base)
+        })
+    }
+
+    /// One call of `format_missing(end)` / `format_missing_with_indent(end)` /
+    /// `format_missing_no_indent(end)` on `with_text_visitor`'s visitor (`last_pos` and `end`
+    /// are byte offsets into `text`). Returns the buffer, `line_number`, `last_pos` (offset
+    /// into `text`) afterwards, and the start position of the text in the source map.
+    pub(crate) fn format_missing_call(
+        text: &str,
+        pad: usize,
+        buffer: &str,
+        block_indent: Indent,
+        last_pos: usize,
+        end: usize,
+        entry: MissedEntry,
+        config: &Config,
+    ) -> (String, usize, usize, usize) {
+        with_text_visitor(text, pad, buffer, block_indent, config, |visitor, base| {
             visitor.last_pos = base + BytePos::from_usize(last_pos);
             let end = base + BytePos::from_usize(end);
             match entry {
